@@ -1,4 +1,5 @@
 import Poulpy.Lemmas.CkksSemOps
+import Poulpy.Lemmas.CkksPt
 /-!
 Program-level value semantics of the linear CKKS fragment (C16): along any straight-line program of
 ciphertext additions, subtractions, negations, multiplications / divisions by powers of two and
@@ -56,6 +57,11 @@ theorem _root_.Ckks.Sem.Near.comp1 {x y M ε E l : ℚ} {β β' : ℕ} (h1 : Nea
     (hd : ∃ n : ℤ, l * 2 ^ β = n * 2 ^ β') : Near x (l * M) (2 ^ β') (ε + |l| * E) :=
   h1.trans (h2.scale hd)
 
+/-- unary with a known addend -/
+theorem _root_.Ckks.Sem.Near.comp1c {x y M ε E l c : ℚ} {β β' : ℕ} (h1 : Near x (l * y + c) (2 ^ β') ε) (h2 : Near y M (2 ^ β) E)
+    (hd : ∃ n : ℤ, l * 2 ^ β = n * 2 ^ β') : Near x (l * M + c) (2 ^ β') (ε + (|l| * E + 0)) :=
+  h1.trans ((h2.scale hd).add (Near.refl c _))
+
 /-- binary: `x ≈ la·ya + lb·yb` -/
 theorem _root_.Ckks.Sem.Near.comp2 {x ya yb Ma Mb ε Ea Eb la lb : ℚ} {βa βb β' : ℕ} (h1 : Near x (la * ya + lb * yb) (2 ^ β') ε)
     (ha : Near ya Ma (2 ^ βa) Ea) (hb : Near yb Mb (2 ^ βb) Eb)
@@ -83,6 +89,8 @@ def specM (M : Nat → Nat → ℚ) : LOp → Nat → Nat → ℚ
   | .rescale d _ a => upd M d (fun t => 1 * M a t)
   | .rescaleAssign d _ => upd M d (fun t => 1 * M d t)
   | .align _ _ => M
+  | .addPt sub d a pt pg => upd M d (fun t => 1 * M a t + sg sub * ((valCoeff pt.base2k pg t : ℚ) / 2 ^ pt.md.logDelta))
+  | .addPtAssign sub d pt pg => upd M d (fun t => 1 * M d t + sg sub * ((valCoeff pt.base2k pg t : ℚ) / 2 ^ pt.md.logDelta))
 
 /-- the error budget: `σ = 1 + Σ‖sᵢ‖₁`, `u` = one unit of the last limb of the result of this call -/
 def specE (σ u : ℚ) (E : Nat → ℚ) : LOp → Nat → ℚ
@@ -97,11 +105,20 @@ def specE (σ u : ℚ) (E : Nat → ℚ) : LOp → Nat → ℚ
   | .rescale d _ a => upd E d (σ * u + 1 * E a)
   | .rescaleAssign d _ => upd E d (0 + 1 * E d)
   | .align _ _ => E
+  | .addPt _ d a _ _ => upd E d (2 * σ * u + (1 * E a + 0))
+  | .addPtAssign _ d _ _ => upd E d (σ * u + (1 * E d + 0))
 
 /-- destination slot -/
 def LOp.dst : LOp → Nat
   | .add _ d _ _ | .addAssign _ d _ | .neg d _ | .negAssign d | .mulPow2 d _ _ | .mulPow2Assign d _
-  | .divPow2 d _ _ | .divPow2Assign d _ | .rescale d _ _ | .rescaleAssign d _ | .align d _ => d
+  | .divPow2 d _ _ | .divPow2Assign d _ | .rescale d _ _ | .rescaleAssign d _ | .align d _
+  | .addPt _ d _ _ _ | .addPtAssign _ d _ _ => d
+
+/-- the plaintext operands of a call are well formed -/
+def LOp.PtsOK (env : Env) (N : Nat) : LOp → Prop
+  | .addPt _ _ _ pt pg => PtOK env N pt pg
+  | .addPtAssign _ _ pt pg => PtOK env N pt pg
+  | _ => True
 
 /-- one unit of the last limb at the scale of the decoded value, from the metadata alone -/
 def ulpM (env : Env) (c : Ct) : ℚ := 2 ^ c.md.logBudget / 2 ^ (env.base2k * c.size)
@@ -287,7 +304,7 @@ theorem sn_nonneg (r : Nat) (s : List Poly) : 0 ≤ sn r s := le_trans zero_le_o
 /-- **one call of the linear fragment**: if the metadata model returns `Ok`, the data path returns `Ok` with
 that metadata, well-formedness is kept, and the decoded values follow the plaintext program within `specE` -/
 theorem dstep_sem {env : Env} (he : EnvOK env) {N r : Nat} {pool : DPool} (hp : AllOK env N r pool) (op : LOp)
-    {mp : Pool} (hm : stepR env (DPool.cts pool) op.toOp = .ok mp) : StepGoal env N r pool op mp := by
+    (hpt : op.PtsOK env N) {mp : Pool} (hm : stepR env (DPool.cts pool) op.toOp = .ok mp) : StepGoal env N r pool op mp := by
   cases op with
   | add sub d a b =>
     obtain ⟨cd, ca, cb, m, hd, ha, hb, hda, hdb, hf, rfl⟩ := op3_ok' (show op3 _ d a b (addCtInto env) = .ok mp from hm)
@@ -479,6 +496,52 @@ theorem dstep_sem {env : Env} (he : EnvOK env) {N r : Nat} {pool : DPool} (hp : 
                 simpa using this
               rwa [upd_self, upd_self] at this
 
+  | addPt sub d a pt pg =>
+    obtain ⟨cd, ca, m, hd, ha, hda, hf, rfl⟩ := op2_ok' (show op2 _ d a (fun cd ca => withPt env pt cd (addPtZnxInto env cd ca pt)) = .ok mp from hm)
+    obtain ⟨xd, hxd, rfl⟩ := cts_some hd
+    obtain ⟨xa, hxa, rfl⟩ := cts_some ha
+    obtain ⟨c', h1, hct, hok, hv⟩ := dAddPtInto_sem he (hp.get hxd) (hp.get hxa) sub hpt hf
+    refine ⟨pool.set d c', dop2_ok hxd hxa hda h1, by rw [cts_set, hct], hp.set d hok, fun s M E ht => ?_⟩
+    simp only [LOp.dst, specM, specE]
+    rw [ulpAt_set hd, ← hct, ← ulp_eq_ulpM hok]
+    refine ht.set d c' _ _ fun t htN => ?_
+    obtain ⟨_, hal⟩ := withPt_ok2 hf
+    have hbud : m.md.logBudget ≤ xa.ct.md.logBudget := by
+      simp only [addPtZnxInto] at hal
+      cases h1' : shiftInto env xd.ct xa.ct 0 with
+      | ok m1 =>
+        rw [h1'] at hal
+        obtain ⟨rfl, _, _⟩ := ptAlign_ok2 (show ptAlign env m1 pt = .ok m from hal)
+        have := unaryShift_spec env xd.ct xa.ct m h1' 0; omega
+      | err e c => rw [h1'] at hal; cases hal
+      | panic p => rw [h1'] at hal; cases hal
+    have hbk : env.base2k = pt.base2k := by
+      simp only [addPtZnxInto] at hal
+      cases h1' : shiftInto env xd.ct xa.ct 0 with
+      | ok m1 => rw [h1'] at hal; exact (ptAlign_ok2 (show ptAlign env m1 pt = .ok m from hal)).2.1
+      | err e c => rw [h1'] at hal; cases hal
+      | panic p => rw [h1'] at hal; cases hal
+    have h0 := hv s t htN
+    rw [← one_mul (decC s xa t), wrap_ct hct, hbk] at h0
+    have := h0.comp1c (ht a xa hxa t htN) (dvd_one hbud)
+    rw [wrap_ct hct]
+    simpa using this
+  | addPtAssign sub d pt pg =>
+    obtain ⟨cd, m, hd, hf, rfl⟩ := op1_ok' (show op1 _ d (fun cd => withPt env pt cd (addPtZnxAssign env cd pt)) = .ok mp from hm)
+    obtain ⟨xd, hxd, rfl⟩ := cts_some hd
+    obtain ⟨c', h1, hct, hok, hv⟩ := dAddPtAssign_sem he (hp.get hxd) sub hpt hf
+    refine ⟨pool.set d c', dop1_ok hxd h1, by rw [cts_set, hct], hp.set d hok, fun s M E ht => ?_⟩
+    simp only [LOp.dst, specM, specE]
+    rw [ulpAt_set hd, ← hct, ← ulp_eq_ulpM hok]
+    refine ht.set d c' _ _ fun t htN => ?_
+    obtain ⟨_, hal⟩ := withPt_ok2 hf
+    obtain ⟨rfl, hbk, _⟩ := ptAlign_ok2 (show ptAlign env xd.ct pt = .ok m from hal)
+    have h0 := hv s t htN
+    rw [← one_mul (decC s xd t), wrap_ct hct, hbk] at h0
+    have := h0.comp1c (ht d xd hxd t htN) (dvd_one (Nat.le_refl _))
+    rw [wrap_ct hct]
+    simpa using this
+
 /-! ### programs -/
 
 /-- the plaintext program and its error budget along the metadata run (`σ = 1 + Σ‖sᵢ‖₁`): the budget of a
@@ -493,8 +556,8 @@ def specRun (env : Env) (σ : ℚ) : Pool → (Nat → Nat → ℚ) → (Nat →
 /-- **programs of the linear fragment.**  If the metadata model runs the program to `Ok mp`, the data-path
 model runs it to `Ok pool'` with `pool'.cts = mp`, every ciphertext stays well formed with balanced digits,
 and every ciphertext decodes to the plaintext program within the accumulated budget, for every secret. -/
-theorem drun_sem {env : Env} (he : EnvOK env) {N r : Nat} (ops : List LOp) {pool : DPool} (hp : AllOK env N r pool)
-    {mp : Pool} (hm : run env (DPool.cts pool) (ops.map LOp.toOp) = .ok mp) :
+theorem drun_sem {env : Env} (he : EnvOK env) {N r : Nat} (ops : List LOp) (hops : ∀ op ∈ ops, op.PtsOK env N)
+    {pool : DPool} (hp : AllOK env N r pool) {mp : Pool} (hm : run env (DPool.cts pool) (ops.map LOp.toOp) = .ok mp) :
     ∃ pool', drun env N pool ops = .ok pool' ∧ DPool.cts pool' = mp ∧ AllOK env N r pool' ∧
       ∀ s M E, Tracks s N pool M E →
         Tracks s N pool' (specRun env (sn r s) (DPool.cts pool) M E ops).1 (specRun env (sn r s) (DPool.cts pool) M E ops).2 := by
@@ -508,9 +571,9 @@ theorem drun_sem {env : Env} (he : EnvOK env) {N r : Nat} (ops : List LOp) {pool
     cases h1 : stepR env (DPool.cts pool) op.toOp with
     | ok P' =>
       rw [h1] at hm
-      obtain ⟨pool1, e1, c1, ok1, t1⟩ := dstep_sem he hp op h1
+      obtain ⟨pool1, e1, c1, ok1, t1⟩ := dstep_sem he hp op (hops op (by simp)) h1
       subst c1
-      obtain ⟨pool', e2, c2, ok2, t2⟩ := ih ok1 hm
+      obtain ⟨pool', e2, c2, ok2, t2⟩ := ih (fun o ho => hops o (by simp [ho])) ok1 hm
       refine ⟨pool', by simp only [drun, e1, Core.Ops.bind]; exact e2, c2, ok2, fun s M E ht => ?_⟩
       simp only [specRun, h1]
       exact t2 s _ _ (t1 s M E ht)
